@@ -53,6 +53,13 @@ pub trait OneApi {
     fn clone_receiver(&mut self) -> bool;
     fn drop_receiver(&mut self) -> bool;
     fn teardown(&mut self);
+    /// a second handle on the same channel that never frees it (threaded runs)
+    fn view(&self) -> Option<Self>
+    where
+        Self: Sized,
+    {
+        None
+    }
 }
 
 pub struct OneExec<C: OneApi> {
@@ -85,7 +92,7 @@ impl<C: OneApi> OneExec<C> {
     }
 }
 
-impl<C: OneApi> Exec for OneExec<C> {
+impl<C: OneApi + 'static> Exec for OneExec<C> {
     fn step(&mut self, op: &[u64]) -> Obs {
         let mut o = Obs::default();
         if self.gone {
@@ -156,6 +163,10 @@ impl<C: OneApi> Exec for OneExec<C> {
         self.observe(&mut o);
         o
     }
+    fn share(&self) -> Option<Box<dyn Exec>> {
+        let k = self.futs.len();
+        self.ch.view().map(|c| -> Box<dyn Exec> { Box::new(OneExec::with(c, k)) })
+    }
 }
 
 impl<C: OneApi> Drop for OneExec<C> {
@@ -171,10 +182,10 @@ impl<C: OneApi> Drop for OneExec<C> {
 
 macro_rules! borrowed_api {
     ($name:ident, $chan:ident) => {
-        pub struct $name<M: RawMutex + 'static>(Option<&'static $chan<M, Val>>);
+        pub struct $name<M: RawMutex + 'static>(Option<&'static $chan<M, Val>>, bool);
         impl<M: RawMutex + 'static> $name<M> {
             pub fn new() -> Self {
-                $name(Some(Box::leak(Box::new($chan::<M, Val>::new()))))
+                $name(Some(Box::leak(Box::new($chan::<M, Val>::new()))), false)
             }
         }
         impl<M: RawMutex + 'static> OneApi for $name<M> {
@@ -211,8 +222,13 @@ macro_rules! borrowed_api {
             }
             fn teardown(&mut self) {
                 if let Some(c) = self.0.take() {
-                    lib(|| unsafe { drop(Box::from_raw(c as *const _ as *mut $chan<M, Val>)) });
+                    if !self.1 {
+                        lib(|| unsafe { drop(Box::from_raw(c as *const _ as *mut $chan<M, Val>)) });
+                    }
                 }
+            }
+            fn view(&self) -> Option<Self> {
+                self.0.map(|c| $name(Some(c), true))
             }
         }
     };
@@ -223,7 +239,7 @@ borrowed_api!(BorrowedBroadcast, GenericOneshotBroadcastChannel);
 // ---- shared flavours ---------------------------------------------------------------------
 
 macro_rules! shared_api {
-    ($name:ident, $mk:ident, $snd:ident, $rcv:ident, $obs:ident, $clone:expr) => {
+    ($name:ident, $mk:ident, $conv:path, $snd:ident, $rcv:ident, $obs:ident, $clone:expr) => {
         pub struct $name<M: RawMutex + 'static> {
             sender: Option<$snd<M, Val>>,
             receivers: Vec<$rcv<M, Val>>,
@@ -231,7 +247,11 @@ macro_rules! shared_api {
         }
         impl<M: RawMutex + 'static> $name<M> {
             pub fn new() -> Self {
-                let (s, r) = $mk::<M, Val>();
+                // parking_lot flavour: through the crate's convenience constructor
+                let (s, r): ($snd<M, Val>, $rcv<M, Val>) = match cast($conv()) {
+                    Ok(p) => p,
+                    Err(p) => { drop(p); $mk::<M, Val>() }
+                };
                 let observer = Some(s.verif_observer());
                 let mut receivers = Vec::with_capacity(16);
                 receivers.push(r);
@@ -307,8 +327,8 @@ macro_rules! shared_api {
         }
     };
 }
-shared_api!(SharedOneshot, generic_oneshot_channel, GenericOneshotSender, GenericOneshotReceiver, VerifOneshotObserver, |_r| None);
-shared_api!(SharedBroadcast, generic_oneshot_broadcast_channel, GenericOneshotBroadcastSender, GenericOneshotBroadcastReceiver, VerifBroadcastObserver, |r| Some(r.clone()));
+shared_api!(SharedOneshot, generic_oneshot_channel, futures_intrusive::channel::shared::oneshot_channel::<Val>, GenericOneshotSender, GenericOneshotReceiver, VerifOneshotObserver, |_r| None);
+shared_api!(SharedBroadcast, generic_oneshot_broadcast_channel, futures_intrusive::channel::shared::oneshot_broadcast_channel::<Val>, GenericOneshotBroadcastSender, GenericOneshotBroadcastReceiver, VerifBroadcastObserver, |r| Some(r.clone()));
 
 pub fn make<M: RawMutex + 'static>(cfg: &[u64], shared: bool) -> Box<dyn Exec> {
     let k = cfg[0] as usize;
